@@ -203,9 +203,14 @@ impl InstructionGenerator {
         self.label("do", pos);
         self.generate_expression_instructions(condition);
         if kind == DoLoopConditionKind::Until {
-            self.push(Instruction::NotA, pos);
+            // UNTIL leaves the loop as soon as the condition is true, i.e. not zero
+            // (NOT is a bitwise operator, it cannot be used to invert an arbitrary number)
+            self.jump_if_false("do-body", pos);
+            self.jump("loop", pos);
+            self.label("do-body", pos);
+        } else {
+            self.jump_if_false("loop", pos);
         }
-        self.jump_if_false("loop", pos);
         self.visit(statements);
         self.mark_statement_address(); // to be able to resume on error
         self.jump("do", pos);
@@ -224,10 +229,12 @@ impl InstructionGenerator {
         self.mark_statement_address(); // to be able to resume on error
         self.generate_expression_instructions(condition);
         if kind == DoLoopConditionKind::Until {
-            self.push(Instruction::NotA, pos);
+            // UNTIL repeats the loop while the condition is false, i.e. zero
+            self.jump_if_false("do", pos);
+        } else {
+            self.jump_if_false("loop", pos);
+            self.jump("do", pos);
         }
-        self.jump_if_false("loop", pos);
-        self.jump("do", pos);
         self.label("loop", pos);
     }
 }
